@@ -355,7 +355,7 @@ func (c *userTypesCollector) collectUserTypesFromTypeConstraint(node internalSch
 	}
 
 	name := typ.Bytes().Unquote().String()
-	if name[0] == '@' {
+	if name != "" && name[0] == '@' {
 		c.addType(name)
 	}
 }
